@@ -528,6 +528,15 @@ func wshsResponse(r *rng, hostile bool) (head []byte, status int, upg string, ac
 func (r *rng) pickS(xs ...string) string { return xs[r.intn(len(xs))] }
 
 func wshsFrame(r *rng) []byte {
+	if r.intn(7) == 0 {
+		// a Close frame right behind the response: the session ends with the client's reply still queued, and the next
+		// handshake on this stream starts from there
+		reason := r.bytes(r.pick(0, 0, 3, 10))
+		for i := range reason {
+			reason[i] = 'a' + reason[i]%26
+		}
+		return append([]byte{0x88, byte(2 + len(reason)), 0x03, byte(r.pick(0xe8, 0xe9, 0xf3))}, reason...)
+	}
 	n := r.pick(0, 1, 2, 5, 5, 20, 125)
 	op := byte(r.pick(0x81, 0x82, 0x82, 0x89, 0x8a, 0x02, 0x01))
 	p := r.bytes(n)
